@@ -189,6 +189,8 @@ def body_resume_undefined(h):
 
 def cases(tier):
     cs = [Case('fault-resume', body_fault, timeout_s=1500),
+          Case('fault-resume-0', body_fault_resume0, timeout_s=1500),
+          Case('structural-errors', body_structural, max_fanout=300),
           Case('error-n', body_error_n, params={'sub': False}, max_fanout=300),
           Case('error-n-in-gosub', body_error_n, params={'sub': True}, max_fanout=300),
           Case('error-in-handler', body_in_handler, max_fanout=300),
@@ -199,3 +201,48 @@ def cases(tier):
     for f in ('plain', 'next', 'line'):
         cs.append(Case('resume-without-error-' + f, body_resume_without_error, params={'form': f}))
     return cs
+
+
+def body_fault_resume0(h):
+    """RESUME 0 is the same statement as RESUME: the failing statement is executed again"""
+    prog = PROG_FAULT[:-1] + [b'120 B%=1: RESUME 0']
+    impl = _setup(h, prog, [b'M%', b'X%', b'A%', b'B%', b'C%', b'L%', b'H%', b'R%'])
+    a, b = h.bytes('a', 2), h.bytes('b', 2)
+    A, B = s16(a), s16(b)
+    session.poke_int(h, impl, b'A%', a)
+    session.poke_int(h, impl, b'B%', b)
+    session.poke_int(h, impl, b'R%', seq2(h, 2))
+    impl.execute(b'GOTO 10')
+    M, X, C, L, H = [_geti(impl, n) for n in (b'M%', b'X%', b'C%', b'L%', b'H%')]
+    fault = s_or(B == 0, s_and(A == -32768, B == -1))
+    h.require('handler-entered-once-per-error', H == ite(fault, 1, 0))
+    h.require('erl-is-failing-line', L == ite(fault, 20, 0))
+    h.require('resume-0-reexecutes-statement', s_implies(fault, X == A))
+    h.require('resume-continues-at-the-right-place', M == 111)
+    h.require('no-untrapped-error', impl.interpreter.error_num == 0)
+    return [M, X, C, L, H]
+
+
+def body_structural(h):
+    """errors raised by the interpreter's own block matching (not by ERROR n or arithmetic): ERR / ERL /
+    RESUME NEXT position"""
+    prog = [b'10 ON ERROR GOTO 100', b'15 M%=1',
+            b'20 IF A%=1 THEN NEXT', b'22 IF A%=2 THEN WEND', b'24 IF A%=3 THEN RETURN',
+            b'26 IF A%=4 THEN FOR I%=1 TO 2', b'28 IF A%=5 THEN WHILE 1',
+            b'30 M%=M%+10: END',
+            b'100 C%=ERR: L%=ERL: H%=H%+1: RESUME NEXT']
+    impl = _setup(h, prog, [b'M%', b'A%', b'C%', b'L%', b'H%', b'I%'])
+    a = h.bytes('a', 2)
+    A = s16(a)
+    session.poke_int(h, impl, b'A%', a)
+    impl.execute(b'GOTO 10')
+    M, C, L, H = [_geti(impl, n) for n in (b'M%', b'C%', b'L%', b'H%')]
+    hit = s_and(A >= 1, A <= 5)
+    code = ite(A == 1, 1, ite(A == 2, 30, ite(A == 3, 3, ite(A == 4, 26, ite(A == 5, 29, 0)))))
+    line = ite(A == 1, 20, ite(A == 2, 22, ite(A == 3, 24, ite(A == 4, 26, ite(A == 5, 28, 0)))))
+    h.require('err-is-the-specific-code', C == ite(hit, code, 0))
+    h.require('erl-is-failing-line', L == ite(hit, line, 0))
+    h.require('handler-entered-once-per-error', H == ite(hit, 1, 0))
+    h.require('resume-next-continues', M == 11)
+    h.require('no-untrapped-error', impl.interpreter.error_num == 0)
+    return [M, C, L, H]
